@@ -196,6 +196,10 @@ def run(ctx, rep: Report, deep: bool = False):
             if numbers != sorted(numbers):
                 rep.feat("track_numbers_out_of_order")
         for k in numbers:
+            if i % 10 == 6:
+                # S189: empty and blank-only lines between the tracks (ripping tools separate tracks that way)
+                lines += [["\n"], ["   \n"], ["\n", "\t\n"]][len(firsts) % 3]
+                rep.feat("blank_lines_between_tracks")
             lines.append(f"  TRACK {k:02d} AUDIO\n")
             if i % 10 == 3 and nt >= 2 and len(titles) < 2:
                 # S150: two tracks whose titles differ only in a final L / R - CD tracks are stereo already and must
@@ -266,7 +270,7 @@ def run(ctx, rep: Report, deep: bool = False):
         rep.feat("odd_sheets")
     if ctx.model_available:
         compare_family(rep, "cdda", [c for c in cases if c.impl != "skip"], nontrivial=lambda c: c.impl.count(";") >= 2)
-    rep.required_features = ["pairs_exported", "multi_track", "odd_sheets", "tail_2352", "tail_3", "track_numbers_out_of_order", "tracks_100_minutes_and_more", "titles_that_look_like_a_pair", "duplicate_titles", "sheet_longer_than_4k"]
+    rep.required_features = ["pairs_exported", "multi_track", "odd_sheets", "tail_2352", "tail_3", "track_numbers_out_of_order", "tracks_100_minutes_and_more", "titles_that_look_like_a_pair", "duplicate_titles", "sheet_longer_than_4k", "blank_lines_between_tracks"]
 
 
 def search(ctx, rep: Report):
